@@ -171,3 +171,12 @@ def dump(n):
         return ast.dump(n)
     except Exception as e:  # noqa
         return "<undumpable %s: %s>" % (type(n).__name__, e)
+
+
+def clone(n):
+    "fresh tree sharing the leaf objects (so symbolic leaves still compare by identity); call under nt() or traced, both work"
+    if isinstance(n, ast.AST):
+        return type(n)(**{f: clone(getattr(n, f)) for f in n._fields if hasattr(n, f)})
+    if isinstance(n, list):
+        return [clone(x) for x in n]
+    return n
